@@ -36,6 +36,8 @@ type Op struct {
 	Retain  bool     `json:"retain,omitempty"`
 	Size    int      `json:"size,omitempty"`
 	Bytes   int      `json:"bytes,omitempty"`
+	Burst   []int    `json:"burst,omitempty"`   // payload sizes of a pipelined burst (>= 8 each)
+	EOFData bool     `json:"eofdata,omitempty"` // connect: transport may return last bytes together with EOF
 }
 
 type Plan struct {
@@ -406,19 +408,25 @@ func (e *exec) ensureConnected(ci int) bool {
 	return e.conns[ci] != nil
 }
 
-func (e *exec) doConnect(ci int, clean bool, w *Will) {
+func (e *exec) doConnect(ci int, clean bool, w *Will) { e.doConnectOpt(ci, clean, w, false) }
+
+func (e *exec) doConnectOpt(ci int, clean bool, w *Will, eofData bool) {
 	if e.conns[ci] != nil {
 		e.doEnd(ci, "close")
 		if e.abort {
 			return
 		}
 	}
-	c := e.b.Dial(clientID(ci))
+	c := e.b.DialOpt(clientID(ci), eofData)
+	if eofData {
+		e.class("transport-returns-data-with-eof")
+	}
 	cp := wire.ConnectPacket(clientID(ci), clean, 120)
 	var mw *will
 	if w != nil {
-		e.msgno++
-		mw = &will{Topic: w.Topic, Payload: payload(e.msgno, w.Size), QoS: w.QoS, Retain: w.Retain}
+		// the will payload depends on the will's parameters only, so that a
+		// client can reconnect with a byte-identical CONNECT
+		mw = &will{Topic: w.Topic, Payload: payload(9000+ci*100+int(w.QoS)*10+len(w.Topic), w.Size), QoS: w.QoS, Retain: w.Retain}
 		cp.ConnectFlags |= 4 | w.QoS<<3
 		if w.Retain {
 			cp.ConnectFlags |= 32
@@ -475,6 +483,11 @@ func (e *exec) doEnd(ci int, how string) {
 	switch how {
 	case "disconnect":
 		c.Send(&codec.Packet{Type: codec.DISCONNECT})
+	case "disconnect-close":
+		// DISCONNECT and the end of the stream arrive together
+		c.Send(&codec.Packet{Type: codec.DISCONNECT})
+		c.Close()
+		e.class("disconnect-then-immediate-close")
 	case "garbage":
 		c.SendRaw([]byte{0xF0, 0x00}) // reserved packet type 15
 	default:
@@ -484,12 +497,12 @@ func (e *exec) doEnd(ci int, how string) {
 		e.hang(fmt.Sprintf("teardown of client %d after %s", ci, how))
 		return
 	}
-	if how != "close" && !c.WaitClosed(wire.DefaultWait) {
+	if how != "close" && how != "disconnect-close" && !c.WaitClosed(wire.DefaultWait) {
 		e.report(dLive, "-", "client %d: the broker did not close the connection after %s", ci, how)
 	}
-	ws, _ := e.dropConn(ci, how == "disconnect")
+	ws, _ := e.dropConn(ci, how == "disconnect" || how == "disconnect-close")
 	if hadWill {
-		if how == "disconnect" {
+		if how == "disconnect" || how == "disconnect-close" {
 			e.class("will-suppressed-by-disconnect")
 		} else {
 			e.class("will-due")
@@ -881,6 +894,133 @@ func (e *exec) doInprocUnsub(op Op) {
 	}
 }
 
+// doBurst: the publisher writes several PUBLISH packets back to back (one
+// write), so later packets arrive while earlier ones are still being fanned
+// out; then everything is cut and each message is judged like a single publish.
+func (e *exec) doBurst(op Op) {
+	ci := op.C
+	if !e.ensureConnected(ci) {
+		return
+	}
+	c := e.conns[ci]
+	q := op.PQ
+	if q > 1 {
+		q = 1
+	}
+	type bm struct {
+		no int
+		pl []byte
+	}
+	var msgs []bm
+	var out []byte
+	var pids []uint16
+	for _, sz := range op.Burst {
+		if sz < 8 {
+			sz = 8
+		}
+		e.msgno++
+		pl := payload(e.msgno, sz)
+		pp := &codec.Packet{Type: codec.PUBLISH, Topic: []byte(op.Topic), QoS: q, Payload: pl}
+		if q > 0 {
+			pp.PacketID = e.nextPID()
+			pids = append(pids, pp.PacketID)
+		}
+		out = append(out, codec.Encode(pp)...)
+		msgs = append(msgs, bm{e.msgno, pl})
+	}
+	if err := c.SendRaw(out); err != nil {
+		e.report(dLive, "-", "client %d: burst of %d publishes could not be written: %v", ci, len(msgs), err)
+		e.dropConn(ci, false)
+		return
+	}
+	for _, id := range pids {
+		if _, err := c.Take(func(p *codec.Packet) bool { return p.Type == codec.PUBACK && p.PacketID == id }, wire.DefaultWait); err != nil {
+			e.report(dAck, "-", "client %d: PUBLISH id %d of a burst was not answered by PUBACK (%v)", ci, id, err)
+			return
+		}
+	}
+	e.class("pipelined-burst")
+	if len(out) > e.p.BufSize {
+		e.class("burst>1-ring")
+	}
+	order := []int{ci}
+	for i := range e.conns {
+		if i != ci {
+			order = append(order, i)
+		}
+	}
+	type rcv struct {
+		name        string
+		pubs        []delivery
+		subs, vsubs map[string]byte
+	}
+	var rs []rcv
+	for _, ri := range order {
+		if e.conns[ri] == nil || e.abort {
+			continue
+		}
+		rx, ok := e.barrier(ri, "burst cut")
+		if !ok {
+			continue
+		}
+		pubs, _ := pubsOf(rx)
+		r := rcv{name: fmt.Sprintf("client %d", ri)}
+		for _, p := range pubs {
+			r.pubs = append(r.pubs, delivery{string(p.Topic), p.Payload, p.QoS, p.Retain, p.Dup})
+		}
+		if l := e.spec.live[ri]; l != nil {
+			r.subs = l.sess.subs
+		}
+		if l := e.vari.live[ri]; l != nil {
+			r.vsubs = l.sess.subs
+		}
+		rs = append(rs, r)
+	}
+	for ii, s := range e.inproc {
+		rs = append(rs, rcv{fmt.Sprintf("in-process subscriber %d", ii), s.take(), e.spec.inproc[ii], e.vari.inproc[ii]})
+	}
+	for _, r := range rs {
+		per := map[int][]byte{}
+		bad := false
+		for _, p := range r.pubs {
+			no := -1
+			if len(p.payload) >= 4 {
+				no = int(p.payload[0])<<24 | int(p.payload[1])<<16 | int(p.payload[2])<<8 | int(p.payload[3])
+			}
+			var m *bm
+			for i := range msgs {
+				if msgs[i].no == no {
+					m = &msgs[i]
+				}
+			}
+			if m == nil || p.topic != op.Topic || !bytes.Equal(p.payload, m.pl) {
+				e.report(dRoute, "-", "%s received a PUBLISH (topic %q, %d bytes, starts %x) that is none of the %d messages of the burst from client %d byte for byte", r.name, p.topic, len(p.payload), clip(p.payload, 8), len(msgs), ci)
+				bad = true
+				break
+			}
+			per[no] = append(per[no], p.qos)
+		}
+		if bad {
+			continue
+		}
+		as, av := allowedFor(e.spec.m, r.subs, op.Topic, q), allowedFor(e.vari.m, r.vsubs, op.Topic, q)
+		for _, m := range msgs {
+			if deliveriesOK(per[m.no], as) {
+				if len(as) > 0 {
+					e.class("delivered")
+				}
+				continue
+			}
+			sig := "-"
+			if deliveriesOK(per[m.no], av) {
+				sig = "empty-level"
+			}
+			e.report(dRoute, sig, "%s received %d copies of burst message #%d (topic %q, QoS %d) at QoS %v; its matching subscriptions allow %v", r.name, len(per[m.no]), m.no, op.Topic, q, per[m.no], as)
+			break
+		}
+	}
+}
+
 // doFiller pushes unrelated traffic through client ci's connection:
 // UNSUBSCRIBE packets for a long filter nobody holds (no routing effect).
 func (e *exec) doFiller(op Op) {
@@ -963,14 +1103,14 @@ func runPlan(p Plan, known func(string) bool) outcome {
 		}
 		switch op.K {
 		case "connect":
-			e.doConnect(op.C, op.Clean, op.Will)
+			e.doConnectOpt(op.C, op.Clean, op.Will, op.EOFData)
 		case "sub":
 			e.doSubscribe(op)
 		case "unsub":
 			e.doUnsubscribe(op)
 		case "pub":
 			e.doPublish(op)
-		case "disconnect", "close", "garbage":
+		case "disconnect", "close", "garbage", "disconnect-close":
 			if e.conns[op.C] != nil {
 				e.doEnd(op.C, op.K)
 			}
@@ -986,6 +1126,8 @@ func runPlan(p Plan, known func(string) bool) outcome {
 			e.doServerPublish(op)
 		case "filler":
 			e.doFiller(op)
+		case "burst":
+			e.doBurst(op)
 		}
 	}
 	for _, c := range b.Conns() {
